@@ -28,10 +28,11 @@ type orderProp struct {
 	finalized bool   // header buffer finalized (checksum set) and not modified since
 	hdrWrites int    // header writes since BEGIN (saturates at 2)
 	inTx      bool   // BEGIN (newTx) seen or root is a Tx method
+	inFlight  bool   // a header buffer was handed to the writer and not yet waited for
 }
 
 func (p *orderProp) Key() string {
-	return fmt.Sprintf("%s/%d/%d/%v/%d/%v/%v/%d/%v/%d", p.st, p.waitSym, p.slot, p.switched, p.rollbacks, p.unwaited, p.stickyErr, p.lastWait, p.finalized, p.hdrWrites)
+	return fmt.Sprintf("%s/%d/%d/%v/%d/%v/%v/%d/%v/%d/%v", p.st, p.waitSym, p.slot, p.switched, p.rollbacks, p.unwaited, p.stickyErr, p.lastWait, p.finalized, p.hdrWrites, p.inFlight)
 }
 func (p *orderProp) Clone() PropState { c := *p; return &c }
 
@@ -218,6 +219,8 @@ func (o *orderPlugin) OnCall(in *Interp, fs *FState, site ssa.Instruction, calle
 		isHdr, slot := false, -2
 		if n, ok := asConstInt(id); ok && (n == 0 || n == 1) {
 			isHdr, slot = true, int(n)
+		} else if in.Tainted(id) {
+			isHdr = true // slot computed from File.metaActive (value provenance, survives helper extraction)
 		} else if c, ok := site.(ssa.CallInstruction); ok && len(c.Common().Args) > 2 && derivesFromField(c.Common().Args[2], v.metaActive, 0) {
 			isHdr = true
 		}
@@ -240,6 +243,7 @@ func (o *orderPlugin) OnCall(in *Interp, fs *FState, site ssa.Instruction, calle
 			}
 			p.st, p.slot, p.waitSym = "hdr", slot, 0
 			p.finalized = false
+			p.inFlight = true
 			if p.hdrWrites < 2 {
 				p.hdrWrites++
 			}
@@ -252,6 +256,9 @@ func (o *orderPlugin) OnCall(in *Interp, fs *FState, site ssa.Instruction, calle
 		return true, Top{}
 	case v.syncFn:
 		o.events["sync"]++
+		if n, ok := asConstInt(args[2]); ok && n&v.resetErrBit != 0 && p.st == "dirty" && p.unwaited {
+			in.report("STICKY-BARRIER", site, "the sync between the page writes and the header write carries syncResetErr: the writer forgets a failed page write, the header is written and the commit succeeds although a page it references never reached the file")
+		}
 		p.unwaited = true
 		if n, ok := asConstInt(args[2]); ok {
 			if n&v.resetErrBit != 0 {
@@ -278,6 +285,7 @@ func (o *orderPlugin) OnCall(in *Interp, fs *FState, site ssa.Instruction, calle
 		}
 		r := in.top()
 		p.unwaited = false
+		p.inFlight = false
 		p.lastWait = r.(Top).sym
 		if p.st == "hdrSynced" {
 			p.waitSym = r.(Top).sym
@@ -319,8 +327,18 @@ func (o *orderPlugin) OnCall(in *Interp, fs *FState, site ssa.Instruction, calle
 	if c, ok := site.(ssa.CallInstruction); ok && v.isMetaFieldSet(c) {
 		// any later field update invalidates the checksum until the next Finalize
 		p.finalized = false
+		if p.inFlight {
+			in.report("FINALIZE", site, "header field updated after the header buffer was handed to the writer (before Wait): the bytes written and their checksum can disagree")
+		}
 	}
 	return false, nil
+}
+
+// loads of File.metaActive are the taint source for slot computations
+func (o *orderPlugin) OnLoad(in *Interp, fs *FState, instr ssa.Instruction, cell *Cell) {
+	if cell.fvar == o.voc.metaActive {
+		in.Taint(in.loadCell(fs.st, cell))
+	}
 }
 
 func (o *orderPlugin) OnStore(in *Interp, fs *FState, instr ssa.Instruction, cell *Cell, val Value) {
